@@ -51,6 +51,16 @@ def shapes():
                            Stmt("old.out", ex=["foo.c"])]),
             Variant("v1", [Stmt("foo.o", ex=["foo.c"], hidden=["gen.h"], **kw)]),
         ]))
+    # a subninja file is a scope of its own and may declare a rule named like one of the including file: `clean -r`
+    # names the rule, and statements of both scopes use a rule of that name.  (A rule name that exists *only* inside a
+    # subninja scope is refused by `clean -r` with "unknown rule", exit 1: a diagnosed refusal, not in the alphabet.)
+    def scoped(st, rule, f="sub.ninja"):
+        st.scope, st.rule_name = f, rule
+        return st
+    S.append(("shadowed_rule", [
+        Variant("v0", [Stmt("a", ex=["s"]), scoped(Stmt("b", ex=["a"], hidden=["h"], depfile=True), "r0"), Stmt("c", ex=["b"]),
+                       scoped(Stmt("d", ex=["s"]), "r2", "sub2.ninja")]),
+    ]))
     S.append(("no_input_edge", [
         Variant("v0", [Stmt("ver.h"), Stmt("obj", ex=["src"], im=["ver.h"]), Stmt("exe", ex=["obj"])]),
     ]))
@@ -107,7 +117,7 @@ def clean_scenarios(tier="quick"):
             tools.append(tool_op("cleandead", dry=dry, verbose=dry))
             for o in outs:
                 tools.append(tool_op("clean-targets", [o], dry=dry, verbose=dry))
-            rules = ["r%d" % i for i, st in enumerate(v0.stmts) if not st.phony] + ["phony"]
+            rules = sorted(set(v0.rule_name(i) for i, st in enumerate(v0.stmts) if not st.phony)) + ["phony"]
             for r in rules:
                 tools.append(tool_op("clean-rules", [r], dry=dry, verbose=dry))
         for a, b in itertools.combinations(outs[:4], 2):
@@ -136,9 +146,17 @@ def clean_scenarios(tier="quick"):
     return T
 
 
+def builddir_shapes():
+    """Projects that bind `builddir`: both logs and the lock file live there, for the dry run and the tools as well."""
+    return [("builddir_deps", [
+        Variant("v0", [Stmt("obj", ex=["src"], hidden=["hdr"], deps="gcc"), Stmt("obj2", ex=["src2"], hidden=["hdr"], deps="msvc"),
+                       Stmt("r", ex=["s"], restat=True), Stmt("exe", ex=["obj", "obj2", "r"])], header="builddir = bd"),
+    ])]
+
+
 def readonly_scenarios(tier="quick"):
     T = []
-    for name, variants in shapes():
+    for name, variants in shapes() + builddir_shapes():
         if name == "two_dyndep":
             continue   # C19 is stated for graphs without pending dyndep files
         variants = variants[:1]
@@ -176,7 +194,7 @@ def readonly_scenarios(tier="quick"):
             files = {"dd1.in": "ninja_dyndep_version = 1\nbuild out1 | out1.imp: dyndep\n",
                      "dd2.in": "ninja_dyndep_version = 1\nbuild out2 | out2.imp: dyndep\n"}
         T.append(scenario("c19/" + name, "c19", variants, files=files, ops=ops + tools, init=[],
-                          depth=3 if tier == "quick" else 4, tags=["readonly"]))
+                          depth=3 if tier == "quick" else 4, tags=["readonly"], builddir="bd" if name.startswith("builddir") else ""))
     # compdb with every byte a manifest can carry in a command / description / path
     stmts = []
     for b in range(1, 256):
